@@ -227,6 +227,21 @@ def independence(ck, prefix, config, jobs, orders=('given', 'reversed', 'last-ar
                 ck.violation('%s:%s:result-depends-on-call-order' % (prefix, name),
                              '%s returns %r when called in %s order and %r in the given order' % (name, float(r2.v[k]), o, float(ref.v[idx][k])),
                              dict(function=name, ints=q['i'][:3].tolist(), doubles=q['d'][:4].tolist(), order=o, config=config))
+        # a host that traps floating-point exceptions (feenableexcept, gfortran -ffpe-trap): every call still answers, with the same bits
+        try:
+            r4 = Lib(config, shuffle=False, env={'XV_FPTRAP': '1'}).run(req, strs); n += len(req)
+            bad = np.nonzero((r4.v.view('u8') != ref.v.view('u8')) | (r4.status != ref.status))[0]
+            for k in bad[:2]:
+                q = req[k]
+                ck.violation('%s:%s:result-changes-when-the-host-traps-fp-exceptions' % (prefix, name), '%s returns %r with FP traps enabled and %r without' % (name, float(r4.v[k]), float(ref.v[k])),
+                             dict(function=name, ints=q['i'][:3].tolist(), doubles=q['d'][:4].tolist(), config=config))
+        except ExecCrash as ex:
+            k = _first_crash(config, req, strs, {'XV_FPTRAP': '1'})
+            q = req[k] if k is not None else None
+            ck.violation('%s:%s:dies-when-the-host-traps-fp-exceptions' % (prefix, name),
+                         '%s kills the process (rc %d) when invalid-operation / division-by-zero / overflow exceptions trap%s' % (
+                             name, ex.rc, '' if q is None else ': ints %r doubles %r' % (q['i'][:3].tolist(), q['d'][:3].tolist())),
+                         dict(function=name, ints=None if q is None else q['i'][:3].tolist(), doubles=None if q is None else q['d'][:4].tolist(), config=config, fp_traps=True))
         r3 = nosl.run(req, strs); n += len(req)
         bad = np.nonzero(r3.v.view('u8') != ref.v.view('u8'))[0]
         bad = [k for k in bad if not (np.isnan(r3.v[k]) and np.isnan(ref.v[k]))]
@@ -236,6 +251,25 @@ def independence(ck, prefix, config, jobs, orders=('given', 'reversed', 'last-ar
                          '%s returns %r without an error slot and %r (%s) with one' % (name, float(r3.v[k]), float(ref.v[k]), ref.msg(k) if ref.err[k] else 'success'),
                          dict(function=name, ints=q['i'][:3].tolist(), doubles=q['d'][:4].tolist(), config=config))
     return n
+
+
+def _first_crash(config, req, strs, env):
+    """index of the first request of `req` whose execution kills the executor (bisection over prefixes), or None"""
+    L = Lib(config, shuffle=False, env=env)
+    lo, hi = 0, len(req)            # invariant: req[:lo] runs, req[:hi] dies
+    try:
+        L.run(req[:hi], strs)
+        return None
+    except ExecCrash:
+        pass
+    while hi - lo > 1:
+        mid = (lo + hi) // 2
+        try:
+            L.run(req[:mid], strs)
+            lo = mid
+        except ExecCrash:
+            hi = mid
+    return hi - 1
 
 
 class ExecCrash(Exception):
